@@ -350,7 +350,8 @@ def canon_exc(e: BaseException):
     if isinstance(e, RecursionError) or isinstance(rc, RecursionError):
         return ["EXC", "RecursionError", ""]
     msg = re.sub(r" at 0x[0-9a-f]+", "", msg)
-    return ["EXC", type(e).__name__, msg[:300], type(rc).__name__]
+    rmsg = re.sub(r"c14fam_\w+?_\d+", "MOD", str(rc))[:200]
+    return ["EXC", type(e).__name__, msg[:300], type(rc).__name__, rmsg]
 
 
 def recursion_kind(e: BaseException) -> str:
